@@ -34,6 +34,11 @@ def make_scenarios(ctx, n):
         o1 = dict(scen.small_opts(ctx.rng), sfc=ctx.rng.choice([4, 16, 1 << 20]), mbs=ctx.rng.choice([3, 4, 8]))
         if i % 2 == 1:
             o1 = dict(o1, sfc=ctx.rng.choice([0, 1, 2]), mbs=ctx.rng.choice([8, 64]))       # every file its own block
+            # files of several distinct blocks each: a failing write of a middle or last block must not leave an entry
+            # that covers only part of the file
+            for nm, nblocks in (("multi3", 3), ("multi4", 4)):
+                t1["c"][nm] = {"k": "f", "data": bytes(ctx.rng.randrange(1, 255) for _ in range(nblocks * o1["mbs"] - ctx.rng.choice([0, 3]))).hex(),
+                               "mode": 0o644, "mtime": 10**18 + 300}
         elif i % 4 == 2:
             o1 = dict(o1, sfc=1 << 20, mbs=len(dup))                                       # each dup fills a combined block alone
         if i % 4 == 0:
